@@ -112,6 +112,12 @@ func propC17(run *Run, n int) {
 			if r.Chance(1, 2) {
 				a, b = VObj("k", a), VObj("k", b)
 			}
+		case 3: // deep chains to an edited leaf object (paths of length 3..7: slices with spare capacity)
+			if len(cfg.SetKeys) == 0 {
+				a, b = cfg.ChainPair(r, true)
+			} else {
+				a, b = cfg.Pair(r)
+			}
 		default:
 			a, b = cfg.Pair(r)
 		}
